@@ -3,15 +3,14 @@ C05 — LCOV fixed point: grcov's own lcov report re-imports to the same report.
 Record-level theorems: the records `output_lcov` writes for a result, applied by the reader's
 record semantics (`brdaFold`, `daFold`: the functions the byte machine `Lcov.parse` calls, see
 Props/C04.lean), rebuild exactly the maps they were written from; hence export∘import is the
-identity on observables and iterating it changes nothing. The byte layer of the writer
-(decimal printing, the FN/FNDA lines) is tied to `output_lcov`/`parse_lcov` by the
-correspondence run (in-process round trip and CLI chains r1 → r2 → r3), and is named `…_partial`
-below where a statement is about the record layer only.
+identity on observables and iterating it changes nothing. `C05_roundtrip_bytes` is the byte-level statement (writer model = `printLcov`, tied to
+`output_lcov` byte for byte by the correspondence run); the `…_partial` theorems are the
+record-layer facts it is built from (kept: they also cover records re-sorted by other tools).
 -/
-import GrcovModel.Lemmas.Lcov
+import GrcovModel.Lemmas.LcovWriter
 import GrcovModel.Props.C04
 namespace Grcov.Props.C05
-open Grcov AList Grcov.Lcov
+open Grcov AList Grcov.Lcov Grcov.Lcov.Spec
 
 /-- One BRDA record per vector slot, numbered from 0 (`'-'`/`1`), re-imported in any order,
 rebuilds every branch vector: same length, same slots. -/
@@ -46,6 +45,28 @@ theorem C05_fixed_point {α : Type} (obs : α → α → Prop) (refl : ∀ a, ob
   | succ k ih =>
     show obs (iter rt (k + 1) (rt a)) (rt a)
     exact trans _ _ _ (ih (rt a)) (h (rt a))
+
+/-- **Round trip at byte level.** For every result set that `output_lcov` can write (unique keys,
+u64 counts, u32 line numbers and start lines, names and paths without line terminators, names valid
+UTF-8) the bytes of the written report – `TN:`, then per file `SF`, `FN…`, `FNDA…`, `FNF/FNH`,
+one `BRDA` per slot (`1`/`-`), `BRF/BRH`, `DA…`, `LF/LH`, `end_of_record`, all numbers in decimal –
+are read back by the reader, with branch parsing on, to one record per file, in order. -/
+theorem C05_roundtrip_bytes (rs : List (Bytes × Cov)) (h : ∀ pc ∈ rs, WriterOK pc.1 pc.2) :
+    parse true (printLcov rs) = .ok (rs.map fun pc => (utf8Lossy pc.1, rtCov pc.2)) :=
+  parse_printLcov rs h
+
+/-- … and each re-imported record carries the same data as the one written: the same count for
+every line, the same vector for every branch line, the same start line and executed flag for
+every function (and nothing else). -/
+theorem C05_roundtrip_same_data (c : Cov) (h : c.WF) : SameData (rtCov c) c := rtCov_same c h
+
+/-- non-vacuity: a concrete file with a saturated count, a gap in the branch lines and a non-ASCII
+function name is in the writer's domain -/
+example : WriterOK [97, 46, 99]
+    { lines := [(1, U64MAX), (7, 0)], branches := [(3, [false, true])],
+      functions := [([195, 169], ⟨4, true⟩)] } := by
+  refine ⟨⟨?_, ?_, ?_, ?_⟩, ?_, ?_, ?_, ?_⟩ <;>
+    simp [NodupKeys, keys, U64MAX, U32MAX, noEol, LF, CR] <;> decide
 
 /-- non-vacuity: a branch map with a gap-free and an all-false vector survives the round trip -/
 example : vecAt (brdaFold [] (brdaRecords [(3, [false, true, false]), (9, [false])])) 3 = [false, true, false]
